@@ -186,6 +186,7 @@ def body(ctx):
         total += iterations(ctx, prog, k, viol)
     ctx.extra['paths'] = total
     wrapper(ctx, prog, viol)
+    propagate(ctx, prog)
     if not viol and ctx.tier == 'thorough':
         # translator validation: the real decoder against a reference reading over ~5000 segmentations / terminal events
         rp = ctx.replay_native('segmentation-differential', NATIVE_DIFF, inject_into='src/frame_buffer.rs', profiles=('dev', 'release'))
@@ -195,7 +196,7 @@ def body(ctx):
     if viol:
         desc = {'solver_counterexamples': [str(v)[:400] for v in viol[:6]]}
         ctx.report('segmentation-dependent-decoding', f"{len(viol)} step obligations violated, e.g. {str(viol[0])[:200]}; natively confirmed by the segmentation differential", desc, NATIVE_DIFF,
-                   inject_into='src/frame_buffer.rs', profiles=('dev',))
+                   inject_into='src/frame_buffer.rs', profiles=('dev',), hang_is_violation=True, panic_is_violation=True)
 
 
 def iterations(ctx, prog, k, viol):
@@ -290,6 +291,81 @@ def wrapper(ctx, prog, viol):
         m = ctx.decide('c06.wrapper', s.pc, z3.BoolVal(ok), group='FrameBuffer::read_from is the AMQP instantiation of the generic reader, result passed through')
         if m is not None:
             viol.append(('wrapper',))
+
+
+def propagate(ctx, prog):
+    """Inner::read_from_stream hands the decoder's result on unchanged: an end of stream (or any other error) is reported even
+    when frames were handed on in the same pass"""
+    pv = []
+
+    def read_from_stub(ex, st, fn, argv):
+        # the decoder hands on a frame (handler call) and then returns Ok(n) or an error
+        s2, argv2 = copy.deepcopy((st, argv))     # the closure argument belongs to its own state copy
+        s2.roots['dec'] = 'err'
+        st.roots['dec'] = 'ok'
+        def post_ok(ex_, st_, rv):
+            return rv if (isinstance(rv, Enum) and rv.disc == 1) else mk_ok(Int(st_.fresh_bv('nread', 64), 64, False))
+        def post_err(ex_, st_, rv):
+            return rv if (isinstance(rv, Enum) and rv.disc == 1) else mk_err(Lazy('errors::Error', 'decoder.err'))
+        fr = Lazy('amq_protocol::frame::AMQPFrame', 'frame')
+        return [(st, ('CALL', argv[2], [fr], ('custom', post_ok))), (s2, ('CALL', argv2[2], [fr], ('custom', post_err)))]
+
+    def user_handler(ex, st, fn, argv):
+        st.trace.append(('handled',))
+        return [(st, mk_ok(Unit()))]
+    ex = io_executor(ctx, prog, extra=[(r'^FrameBuffer::read_from::<', read_from_stub), (r'^verif_handler$', user_handler), (r'^HeartbeatTimers::record_rx_activity$', lambda e, s, f, a: [(s, Unit())])])
+    f = prog.method('Inner', 'read_from_stream')
+    st, w = build_steady(prog, [])
+    for (s, rv) in ex.run(st, f, [Ref(w.inner), Ref(Cell(Unit(), 'stream')), Ref(Cell(Unit(), 'framebuf')), FnItem('verif_handler')], bind={'S': 'VerifStream', 'F': 'VerifHandler'}):
+        if s.roots['dec'] == 'ok':
+            c_ = z3.BoolVal(err_name(prog, rv) == 'Ok')
+        else:
+            c_ = same_value(err_value(rv), Lazy('errors::Error', 'decoder.err')) if (not isinstance(rv, Panic) and isinstance(rv, Enum) and rv.disc == 1) else z3.BoolVal(False)
+        m = ctx.decide(f"c06.propagate[{s.roots['dec']}]", s.pc, c_, group='the I/O loop reports the decoder outcome unchanged: end of stream / malformed data / I/O error end the connection even if frames were handed on in the same pass')
+        if m is not None:
+            pv.append((s.roots['dec'], err_name(prog, rv)))
+    if pv:
+        ctx.report('decoder-error-swallowed', f"read_from_stream does not report the decoder's outcome: {pv}", {'cases': pv}, NATIVE_RFS, inject_into='src/io_loop/mod.rs', profiles=('dev',), hang_is_violation=True, panic_is_violation=True)
+
+
+NATIVE_RFS = r'''
+use super::*;
+use amq_protocol::frame::{AMQPFrame, gen_frame};
+struct VS { chunks: Vec<Vec<u8>>, i: usize, terminal: u8 }
+impl std::io::Read for VS {
+    fn read(&mut self, buf: &mut [u8]) -> std::io::Result<usize> {
+        while self.i < self.chunks.len() && self.chunks[self.i].is_empty() { self.i += 1; }
+        if self.i < self.chunks.len() { let n = std::cmp::min(buf.len(), self.chunks[self.i].len()); buf[..n].copy_from_slice(&self.chunks[self.i][..n]); self.chunks[self.i].drain(..n); return Ok(n); }
+        match self.terminal { 0 => Err(std::io::Error::new(std::io::ErrorKind::WouldBlock, "wb")), 1 => Ok(0), _ => Err(std::io::Error::new(std::io::ErrorKind::Other, "boom")) }
+    }
+}
+impl std::io::Write for VS { fn write(&mut self, b: &[u8]) -> std::io::Result<usize> { Ok(b.len()) } fn flush(&mut self) -> std::io::Result<()> { Ok(()) } }
+impl mio::Evented for VS {
+    fn register(&self, _: &mio::Poll, _: mio::Token, _: mio::Ready, _: mio::PollOpt) -> std::io::Result<()> { Ok(()) }
+    fn reregister(&self, _: &mio::Poll, _: mio::Token, _: mio::Ready, _: mio::PollOpt) -> std::io::Result<()> { Ok(()) }
+    fn deregister(&self, _: &mio::Poll) -> std::io::Result<()> { Ok(()) }
+}
+impl crate::IoStream for VS {}
+fn enc(f: &AMQPFrame) -> Vec<u8> { let mut b = vec![0u8; 4096]; let n = { let (_, n) = gen_frame((&mut b[..], 0), f).unwrap(); n }; b.truncate(n); b }
+#[test]
+fn verif_replay_c06_rfs() {
+    let mut bad: Vec<String> = Vec::new();
+    let stream: Vec<u8> = [enc(&AMQPFrame::Heartbeat(0)), enc(&AMQPFrame::Body(1, vec![3u8; 9])), enc(&AMQPFrame::Heartbeat(0))].concat();
+    for cut in 0..=stream.len() { for terminal in 1u8..3 { for tail in [0usize, 3] {
+        let mut data = stream.clone(); data.truncate(stream.len() - tail);   // tail > 0: the stream ends in the middle of a frame
+        let cut = std::cmp::min(cut, data.len());
+        let mut s = VS { chunks: vec![data[..cut].to_vec(), data[cut..].to_vec()], i: 0, terminal };
+        let mut inner = Inner::new(HeartbeatTimers::default(), 16);
+        let mut fb = crate::frame_buffer::FrameBuffer::new();
+        let mut frames = 0;
+        let r = inner.read_from_stream(&mut s, &mut fb, |_, _| { frames += 1; Ok(()) });
+        let want = if terminal == 1 { "UnexpectedSocketClose" } else { "IoErrorReadingSocket" };
+        let got = match &r { Ok(()) => "Ok".to_string(), Err(e) => format!("{:?}", e).split(|c| c == ' ' || c == '(' || c == '{').next().unwrap().to_string() };
+        if got != want && bad.len() < 3 { bad.push(format!("cut={}:tail={}:frames={}:got={}:want={}", cut, tail, frames, got, want)); }
+    } } }
+    if bad.is_empty() { println!("VERIF-REPLAY-OK"); } else { println!("VERIF-REPLAY-VIOLATION decoder-error-swallowed {}", bad.join(";")); }
+}
+'''
 
 
 NATIVE_DIFF = r'''
